@@ -225,6 +225,7 @@ func runC14(c *fw.Ctx) {
 		grave := map[string][]byte{}
 		var root []byte
 		var saved []rSaved
+		fat := r.Intn(8) == 0
 		for v := int64(1); v <= int64(3+r.Intn(5)); v++ {
 			rd, next := genRound(c, g, v, cur, grave)
 			for ti := range rd.txns { // bias values to separators
@@ -235,6 +236,9 @@ func runC14(c *fw.Ctx) {
 				}
 			}
 			next = replayModel(cur, rd)
+			if fat && v == 2 {
+				rd, next = genFatRound(c, v, cur, 280+r.Intn(200))
+			}
 			c.Tracef("%s", rd.String())
 			nr, dead, err := execRound(pndb, root, rd)
 			if err != nil {
@@ -273,7 +277,7 @@ func init() {
 	fw.Register(&fw.Prop{
 		ID:    "C14",
 		Level: "exploration",
-		Rule: "workloads: (a) direct insert/delete histories with version bumps on memory / layered / persistent / layered-over-persistent stores, (b) multi-round block histories saved to the persistent store (same generator as C04); values are biased to separator bytes " +
+		Rule: "workloads: (a) direct insert/delete histories with version bumps on memory / layered / persistent / layered-over-persistent stores, (b) multi-round block histories saved to the persistent store (same generator as C04, every 8th with a fat round of several hundred changed nodes in one save); values are biased to separator bytes " +
 			"(':', '::::', leading/trailing ':', 0x00, 200-byte binary, ':'+32 random bytes, hex-looking strings). Every 8 operations and at the end, every node of every store level involved is swept: stored key == GetHashBytes() == sha3(LE64(origin)‖body) recomputed by the harness' own parser from the stored encoding; " +
 			"CreateNode(enc) has the same hash and re-encodes to the same bytes; the trie root re-computes bottom-up from stored encodings and reads the model content (for every saved root in (b)). distinct non-trivial = distinct stored encodings swept",
 		Cases: func(tier string) int {
@@ -285,7 +289,7 @@ func init() {
 		Run: runC14,
 		Floors: map[string]int64{"nodes_swept": 300000, "root_recomputations": 20000, "kind:leaf-emptypath": 1000, "kind:leaf-path": 1000, "kind:branch-value": 1000, "kind:branch-novalue": 1000, "kind:ext-len1": 1000, "kind:ext-long": 1000,
 			"kind:value-with-separator": 10000, "kind:ext-childhash-contains-separator-byte": 100, "distinct:branch_child_counts": 3,
-			"histories:memory": 100, "histories:persistent": 100, "histories:rounds-on-persistent": 1000},
+			"histories:memory": 100, "histories:persistent": 100, "histories:rounds-on-persistent": 1000, "fat_rounds": 100},
 		Assumptions: []string{"node kinds are those the operation histories produce; the hash format is the one read from the pinned code (see C02)"},
 	})
 }
